@@ -233,7 +233,9 @@ def rand_params(rng: random.Random, defined=(), max_n=6):
             out.append(["num", rng.choice(NUM_FORMS)])
         elif r < 0.75 and defined:
             d = rng.choice(list(defined))
-            out.append(["word", ("-" + d) if rng.random() < 0.3 else d])
+            r2 = rng.random()
+            # NAME and -NAME are uses of the definition; +NAME is a word of its own (verbatim unless defined under that spelling)
+            out.append(["word", ("-" + d) if r2 < 0.3 else ("+" + d) if (r2 < 0.4 and not d.startswith(("+", "-"))) else d])
         else:
             w = rng.choice(WORD_PARAMS)
             out.append(["word", ("-" + w) if rng.random() < 0.15 else w])
@@ -257,7 +259,7 @@ def gen_doc(rng: random.Random, n_blocks=None, globals_p=0.5, cc=True, copies=Tr
         c = rng.choice(ev) if rng.random() < real_names else rng.choice(safe_names(rng, 3, synthetic=0.6))
         if c not in pool:
             pool.append(c)
-    ident = ["dm", "x1", "beta", "Vub", "my_par", "fD", "dGamma", "mass_B", "q2"]
+    ident = ["dm", "x1", "beta", "Vub", "my_par", "fD", "dGamma", "mass_B", "q2", "+eps"]
     defined = rng.sample(ident, rng.randint(0, 4)) if defines else []
     malias = rng.sample(["MyModel", "SLBKPOLE_DtoKlnu", "BMIX", "M2", "AliasX"], rng.randint(0, 3)) if model_aliases else []
     stmts = []
